@@ -338,6 +338,59 @@ def _(s):
 def _(s):
     return rep(s, "    testCase.assertEqual(action.succeeded, succeeded)\n", "")
 
+@mutant("c20_compact_drops_field", "eliot/prettyprint.py")
+def _(s):
+    return rep(s, "    for key, value in sorted(message.items()):\n        if key not in _skip_fields:\n            ordered_message[key] = value",
+               "    for key, value in sorted(message.items()):\n        if key not in _skip_fields and key != \"reason\":\n            ordered_message[key] = value")
+
+@mutant("c20_break_after_not_json", "eliot/prettyprint.py")
+def _(s):
+    return rep(s, '            stdout.write("Not JSON: {}\\n\\n".format(line.rstrip(b"\\n")))\n            continue',
+               '            stdout.write("Not JSON: {}\\n\\n".format(line.rstrip(b"\\n")))\n            break')
+
+@mutant("c20_pretty_skips_status", "eliot/prettyprint.py")
+def _(s):
+    return rep(s, "_first_fields = [ACTION_TYPE_FIELD, MESSAGE_TYPE_FIELD, ACTION_STATUS_FIELD]",
+               "_first_fields = [ACTION_TYPE_FIELD, MESSAGE_TYPE_FIELD]")
+
+@mutant("c20_timestamp_seconds", "eliot/prettyprint.py")
+def _(s):
+    return rep(s, "        dt = datetime.utcfromtimestamp(message[TIMESTAMP_FIELD])",
+               "        dt = datetime.utcfromtimestamp(int(message[TIMESTAMP_FIELD]))")
+
+@mutant("c20_filter_skip_falsy", "eliot/filter.py")
+def _(s):
+    return rep(s, "            if result is self._SKIP:", "            if result is self._SKIP or not result:")
+
+@mutant("c20_non_object_abort", "eliot/prettyprint.py")
+def _(s):
+    return rep(s, "        if not isinstance(message, dict) or REQUIRED_FIELDS - set(message.keys()):",
+               "        if REQUIRED_FIELDS - set(message.keys()):")
+
+@mutant("c19_reader_checks_running", "eliot/logwriter.py")
+def _(s):
+    return rep(s, "        while True:\n            msg = self._queue.get()\n            if msg is _STOP:\n                return",
+               "        while True:\n            msg = self._queue.get()\n            if msg is _STOP or not self.running:\n                return")
+
+@mutant("c19_no_join", "eliot/logwriter.py")
+def _(s):
+    return rep(s, "            self._mainReactor, self._mainReactor.getThreadPool(), self._thread.join\n",
+               "            self._mainReactor, self._mainReactor.getThreadPool(), lambda: None\n")
+
+@mutant("c19_exception_kills_reader", "eliot/logwriter.py")
+def _(s):
+    return rep(s, "            except Exception:\n                # Lower-level destination blew up, nothing we can do, so\n                # just drop on the floor.\n                pass",
+               "            except Exception:\n                return")
+
+@mutant("c19_call_inline", "eliot/logwriter.py")
+def _(s):
+    return rep(s, "        self._queue.put(data)\n", "        if self._queue.empty():\n            try:\n                self._destination(data)\n            except Exception:\n                pass\n        else:\n            self._queue.put(data)\n")
+
+@mutant("c19_stop_before_unregister", "eliot/logwriter.py")
+def _(s):
+    return rep(s, "        removeDestination(self)\n        self._queue.put(_STOP)\n",
+               "        self._queue.put(_STOP)\n        removeDestination(self)\n")
+
 def main():
     name = sys.argv[1]
     d = sys.argv[2] if len(sys.argv) > 2 else "/tmp/mut"
